@@ -75,33 +75,70 @@ def rateOf (num : Json → Except String K) (out : K → Json) (j : Json) : Exce
     pure (Json.mkObj [("u", vec r.1), ("v", vec r.2)])
   | _ => throw s!"unknown class {cls}"
 
-/-- field semantics of right-hand sides:
-{"n", "exprs": [[var, AST]..], "fields": [[name, [..]]..], "scalars": [[name, v]..],
- "ops": [[var, [[opname, op]..]]..]} -> [[var, [..]]..].
-Operator names are looked up per equation (py-pde keys boundary conditions by
-"variable:operator"); every other function name is a local function. -/
-def rhsOf (T : FunTab K) (num : Json → Except String K) (out : K → Json) (j : Json) :
+/-- field semantics of the advertised text of a predefined class - `PdeVerif.PDEs.rhsValue`, the
+definition the `*_rate_eq_expression` theorems are about:
+{"n", "exprs": [[var, AST]..], "fields": [[name, [..]]..], "lap": op, "gradsq": op (optional)}
+ -> [[var, [..]]..] -/
+def textOf (T : FunTab K) (num : Json → Except String K) (out : K → Json) (j : Json) :
     Except String Json := do
   let n ← fldN j "n"
   let exprs ← getL (pairOfJson exprOfJson) (← fld j "exprs")
   let fields ← getL (pairOfJson (getL num)) (← fld j "fields")
-  let scalars ← getL (pairOfJson num) (← fld j "scalars")
-  let opsJ ← getL (pairOfJson (getL (pairOfJson (opOfJson num n)))) (← fld j "ops")
-  let env : Env (Fld Nat K) :=
-    { sc := fun s => match fields.lookup s with
-        | some l => ⟨vecFn l.toArray⟩
-        | none => match scalars.lookup s with
-          | some v => ⟨fun _ => v⟩
-          | none => ⟨fun _ => zero⟩,
-      ix := fun _ _ => ⟨fun _ => zero⟩ }
+  let lap ← opOfJson num n (← fld j "lap")
+  let gradsq : Op Nat K ← match fldOpt j "gradsq" with
+    | some g => opOfJson num n g
+    | none => pure (fun _ _ => zero)
+  let vars : List (String × St Nat K) := fields.map (fun (nm, l) => (nm, vecFn l.toArray))
   let res := exprs.map (fun (var, e) =>
-    let ops : List (String × Op Nat K) := (opsJ.lookup var).getD []
-    let tab : FunTab (Fld Nat K) :=
-      opTab T (fun f => (ops.lookup f).isSome) (fun f => (ops.lookup f).getD id)
-        (fun _ => false) (fun _ x _ => x)
-    let v := (eval tab env e).val
+    let v := rhsValue T lap gradsq vars e
     Json.arr #[Json.str var, Json.arr ((tabulate n v).map out).toArray])
   pure (Json.arr res.toArray)
+
+def optOpOfJson (num : Json → Except String K) (n : Nat) (j : Json) :
+    Except String (Option (Op Nat K)) :=
+  match j with
+  | .null => pure none
+  | _ => do pure (some (← opOfJson num n j))
+
+def tripleOfJson {α : Type} (f : Json → Except String α) (j : Json) :
+    Except String (String × String × α) := do
+  match j with
+  | .arr #[a, b, c] => pure (← getS a, ← getS b, ← f c)
+  | _ => throw s!"expected a triple, got {j.compress}"
+
+/-- right-hand sides of the generic `PDE` - `PdeVerif.PDEs.rhsValuePde`, which selects for every
+operator name the instance carrying the boundary condition that `bc_ops`/`bc` assign to it in the
+equation of the variable (`bcIndex`: first matching key, default last):
+{"n", "exprs": [[name, AST, var]..], "fields": [[name, [..]]..], "scalars": [[name, v]..],
+ "bc_keys": [[kv, ko]..], "table": [[name, bcName, [op | null ..]]..]}
+ -> [[name, [..], [[opname, index]..]]..] -/
+def rhsOf (T : FunTab K) (num : Json → Except String K) (out : K → Json) (j : Json) :
+    Except String Json := do
+  let n ← fldN j "n"
+  let exprsJ ← getL pure (← fld j "exprs")
+  let fields ← getL (pairOfJson (getL num)) (← fld j "fields")
+  let scalars ← getL (pairOfJson num) (← fld j "scalars")
+  let keys ← getL (pairOfJson getS) (← fld j "bc_keys")
+  let table ← getL (tripleOfJson (getL (optOpOfJson num n))) (← fld j "table")
+  let vars : List (String × St Nat K) := fields.map (fun (nm, l) => (nm, vecFn l.toArray))
+  let mut res : Array Json := #[]
+  for ej in exprsJ do
+    let (name, e, var) ← match ej with
+      | .arr #[a, b, c] => pure (← getS a, ← exprOfJson b, ← getS c)
+      | _ => throw s!"expected [name, AST, var], got {ej.compress}"
+    -- an operator name of the table must resolve to an instance the real code could build
+    let mut sel : Array Json := #[]
+    for f in (funNames1 e).eraseDups do
+      match table.lookup f with
+      | some (bcName, _) =>
+        let k := bcIndex keys var bcName
+        sel := sel.push (Json.arr #[Json.str f, toJson k])
+        if (pdeOp keys table var f).isNone then
+          throw s!"equation of {var}: operator {f} with condition #{k} is not available"
+      | none => pure ()
+    let v := rhsValuePde T keys table var vars scalars e
+    res := res.push (Json.arr #[Json.str name, Json.arr ((tabulate n v).map out).toArray, Json.arr sel])
+  pure (Json.arr res)
 
 end
 
@@ -114,6 +151,10 @@ def rate (j : Json) : Except String Json := do
 def rhs (j : Json) : Except String Json := do
   let mode ← fldS j "mode"
   if mode == "Q" then rhsOf (algTab : FunTab Rat) getQ jQ j else rhsOf floatTab getF jF j
+
+def text (j : Json) : Except String Json := do
+  let mode ← fldS j "mode"
+  if mode == "Q" then textOf (algTab : FunTab Rat) getQ jQ j else textOf floatTab getF jF j
 
 /-- the AST the advertised text must have:
 {"cls", "printed": {name: "decimal text"}, "flags": {name: bool}} -> AST (or {"u":..,"v":..}) -/
@@ -130,9 +171,14 @@ def template (j : Json) : Except String Json := do
     pure (exprToJson (allenCahnExpr (← par "interface_width") (← par "mobility") (← flag "mobility_is_one")))
   | "CahnHilliardPDE" => pure (exprToJson (cahnHilliardExpr (← par "interface_width")))
   | "KPZInterfacePDE" => pure (exprToJson (kpzExpr (← par "nu") (← par "lmbda")))
-  | "KuramotoSivashinskyPDE" => pure (exprToJson (ksExpr (← par "nu")))
+  | "KuramotoSivashinskyPDE" =>
+    -- both spellings of the right-hand side (see `ksExprSplit`)
+    pure (Json.mkObj [("grouped", exprToJson (ksExpr (← par "nu"))),
+      ("split", exprToJson (ksExprSplit (← par "neg_nu")))])
   | "SwiftHohenbergPDE" =>
-    pure (exprToJson (swiftHohenbergExpr (← par "a") (← par "delta") (← par "two_kc2")))
+    pure (Json.mkObj [
+      ("grouped", exprToJson (swiftHohenbergExpr (← par "a") (← par "delta") (← par "two_kc2"))),
+      ("split", exprToJson (swiftHohenbergExprSplit (← par "a") (← par "delta") (← par "two_kc2")))])
   | "WavePDE" =>
     let r := waveExprs (← par "speed2")
     pure (Json.mkObj [("u", exprToJson r.1), ("v", exprToJson r.2)])
@@ -142,5 +188,5 @@ def template (j : Json) : Except String Json := do
   | _ => throw s!"unknown class {cls}"
 
 def handlers : List (String × Handler) :=
-  [("c10.rate", rate), ("c10.rhs", rhs), ("c10.template", template)]
+  [("c10.rate", rate), ("c10.rhs", rhs), ("c10.text", text), ("c10.template", template)]
 end PdeVerif.Drv.C10
